@@ -43,6 +43,9 @@ def call_planner(zpool, spec, salt=0):
         raise
     zpool.release(z)
     if "ok" not in r:
+        if r.get("raised") in ("RecursionError", "MemoryError"):
+            # the generated program outgrew the planner's own stack: no plan, no verdict
+            raise Inconclusive("planner:" + r["raised"])
         raise RuntimeError(f"planner failed: {r}")
     return r["ok"]
 
